@@ -50,7 +50,7 @@ TABLE = {
             "stored run fields follow has_run(); tag data is recorded under run_data.run_id. Necessary structure for "
             "continuing a run across reconnects, for all paths rather than the one scenario the suite plays.",
             "Decides structure only: crash points without shutdown, database contents and message arrival order after the "
-            "reconnect are outside static reach."),
+            "reconnect are outside static reach. (R28f) the recent-engine row is written whenever the active run changes; (R28g) every tag-update message carries the runner's run id."),
     "C16": ("interprocedural kind (dimension/clock) analysis of every time argument that reaches a tag writer",
             "A kind lattice {TICK_TIME, COUNTER, WALL, MONO, DURATION, CONST, UNKNOWN} is propagated from Engine.tick's "
             "tick_time parameter through parameters, attributes and returns (global fix-point over resolved call sites); "
@@ -74,7 +74,7 @@ TABLE = {
             "Disconnected/Error must raise, and last-known-good values are written only on successful reads. Exhaustive "
             "over states and paths, hence over all fault sequences, for the abstracted machine.",
             "Abstraction: only self.state/status writes and guards are interpreted; timeouts are nondeterministic "
-            "booleans (their arithmetic is not decided); logging calls are assumed not to raise. R23d also enumerates every mutation or removal of last_known_good_reads outside the success path (a cleared cache makes a masked read return None)."),
+            "booleans (their arithmetic is not decided); logging calls are assumed not to raise. R23d also enumerates every mutation or removal of last_known_good_reads outside the success path (a cleared cache makes a masked read return None). (R23e) every transition into OK restarts the Issue clock; (R23f) an empty batch is not a success."),
     "C24": ("kill rule for superseded pending writes + flush/ownership/filter-completeness rules on CFGs",
             "On every path after a successful decorated write the pending entries of the written registers must be "
             "removed (directly or through the verified summary of _write_pending_values whose state guard is shown true "
@@ -139,7 +139,7 @@ TABLE = {
             "safe state; Engine.tick evaluated with paused=True must not reach UOD command execution; hardware writes in engine "
             "code must be guarded by _runstate_started.",
             "What UOD callbacks compute is not modelled (any executing UOD command may write any output). Three design-level "
-            "violations are open known findings (dead start-up write, error pause without safe state, UOD commands run while paused). Bound: union of the coarse scheduler with one request per tick gap and the exact scheduler of execute_commands with two (quick) / three (thorough) requests per gap. (R08b) Stop's safe write, succeeding and failing (the latter a known finding); (R08e) unsafe no-run/paused states classified by cause; (R08g) no tick takes the hardware from safe-and-paused to live while a Stop/Restart is in progress."),
+            "violations are open known findings (dead start-up write, error pause without safe state, UOD commands run while paused). Bound: union of the coarse scheduler with one request per tick gap and the exact scheduler of execute_commands with two (quick) / three (thorough) requests per gap. (R08b) Stop's safe write, succeeding and failing (the latter a known finding); (R08e) unsafe no-run/paused states classified by cause; (R08g) no tick takes the hardware from safe-and-paused to live while a Stop/Restart is in progress. (R08h, known finding) the safe value is written to the real slot while the hardware write reads the simulated one."),
     "C09": ("captured-state kill rule (structural, per generator segment) + model check of restores on the extracted run-state machine",
             "Every function that ends a pause or crosses a run boundary must clear or consume Engine._prev_state within the "
             "same generator segment; Pause must not capture over an outstanding capture; writers of _prev_state are "
@@ -207,7 +207,7 @@ TABLE = {
             "else writes it; upsert overwrites value and time together. These give strictly increasing recorded times, one "
             "write per interval and recorded-time >= reported-time for every message stream, because they hold on all paths.",
             "Decides the watermark discipline, not numeric outcomes for concrete streams; database behaviour is outside. "
-            "Observation recorded in the rule text: a run restored after a reconnect restarts with an empty watermark."),
+            "Observation recorded in the rule text: a run restored after a reconnect restarts with an empty watermark. (R29g) a restored run takes its watermark from the stored rows."),
     "C25": ("sibling agreement of the routing key across read/write/read_batch/write_batch and dataflow pairing rules "
             "(fresh per-call grouping, exactly-one-group path count, zip/list identity, parameter-order result)",
             "All four methods route a register by the same expression; the batch methods group into a dict created in the call, "
@@ -303,7 +303,7 @@ TABLE = {
             "the transition to Reconnected is reachable only with an empty buffer and buffered messages leave the buffer only on the "
             "path that posts each of them.",
             "Delivery order and duplication under all task interleavings (asyncio.gather ordering) are schedule properties and are "
-            "not decided. (R27e) the gathered posts of a batch are not cancellable once their messages left the buffer."),
+            "not decided. (R27e) the gathered posts of a batch are not cancellable once their messages left the buffer. (R27f) ConnectionClosedOK and ConnectionClosedError both map to the network exception."),
     "C39": ("writer-agreement rules over every csv.writer call + value-independence of the omission predicate over the Tag hierarchy",
             "All csv.writer calls of the archiver share one dialect bound to module constants with an escape character whenever "
             "quoting is QUOTE_NONE; header and rows iterate the same tag sequence under the same omission predicate and every "
@@ -318,7 +318,7 @@ TABLE = {
             "re-acquires the non-reentrant lock. Covers every thread schedule because the rule is about lock coverage, not about "
             "observed interleavings.",
             "Does not model the GIL or asyncio scheduling; the queue hand-off (CommandManager.schedule) is trusted to be thread-safe. "
-            "Three unlocked entry points were repaired (fix: ff1ae728)."),
+            "Three unlocked entry points were repaired (fix: ff1ae728). (R40d, known finding) acknowledged requests do not survive the interpreter swap of a live edit."),
 }
 
 DESIGN_NA = {
